@@ -8,3 +8,4 @@ import OrbProofs.C12Radial
 import OrbProofs.C12VisHeap
 import OrbProofs.C12Vis
 import OrbProofs.C12Wrap
+import OrbProofs.C12Entry
